@@ -8,8 +8,8 @@
     emit_load_imm with REX / ModRM / displacement selection) append exactly the bytes of the encoding specification X86Enc.v
     for every register, displacement and immediate; (4) for the 38 ALU opcodes emitted directly, the emitted instruction
     sequence computes the ISA value under the x86 semantics X86Sem.v, and for the 44 conditional jumps the emitted cmp/test +
-    condition code branch iff the ISA condition holds.  The other opcodes (mul/div/mod shuffling, memory, calls,
-    prologue/epilogue), the jump displacement fix-ups and what the CPU does with the bytes are exercised by checks/C03.py (every opcode x every register
+    condition code branch iff the ISA condition holds, and the 22 memory opcodes make the ISA access.  The other opcodes
+    (mul/div/mod shuffling, calls, lddw, byte swaps, prologue/epilogue), the jump displacement fix-ups and what the CPU does with the bytes are exercised by checks/C03.py (every opcode x every register
     pair x boundary immediates / displacements x control-flow shapes x 4 VM kinds) against the interpreter. *)
 From Coq Require Import ZArith List.
 From RbpfV Require Import MachInt Ebpf WellFormed Verifier JitLogicProofs X86Enc JitEncProofs X86Sem ClAluProofs ClJmpProofs JitArmsProofs.
@@ -75,6 +75,18 @@ Theorem C03_jump_conditions : forall i R d s,
   Forall (fun o => xcond (fst (gen_jit_jmp o i d s)) (snd (gen_jit_jmp o i d s)) R = Some (isa_jump_taken o i (R d) (R s))) cl_jmp_ops.
 Proof. exact jit_jmp_arms. Qed.
 
+(** per-opcode emission, memory: the access made by the instruction(s) emitted for each of the 22 load / store / atomic-add
+    opcodes is the ISA access (kind, width, effective address, stored / added value modulo the width, destination register);
+    for absolute / indirect packet loads with R10 = packet address and a non-negative immediate *)
+Theorem C03_memory_accesses_regs : forall i R d s,
+  (forall r, 0 <= R r < 2 ^ 64) -> s <> 11 -> - 2 ^ 15 <= off i < 2 ^ 15 -> - 2 ^ 31 <= imm i < 2 ^ 31 ->
+  Forall (fun o => jit_access_matches o i R d s) [0x61; 0x69; 0x71; 0x79; 0x62; 0x6a; 0x72; 0x7a; 0x63; 0x6b; 0x73; 0x7b; 0xc3; 0xdb].
+Proof. exact jit_mem_arms_regs. Qed.
+Theorem C03_memory_accesses_packet : forall i R d s,
+  (forall r, 0 <= R r < 2 ^ 64) -> s <> 11 -> - 2 ^ 15 <= off i < 2 ^ 15 -> 0 <= imm i < 2 ^ 31 ->
+  Forall (fun o => jit_access_matches o i R d s) [0x20; 0x28; 0x30; 0x38; 0x40; 0x48; 0x50; 0x58].
+Proof. exact jit_mem_arms_packet. Qed.
+
 (** non-vacuity: `mov rbx, [r13+0]` needs a displacement byte; `mov [rdi-129], r9d` takes the 4-byte form *)
 Example C03_enc_example :
   gen_emit_load [] 64 13 3 0 = Ok [0x49; 0x8b; 0x5d; 0x00] /\
@@ -89,5 +101,7 @@ Print Assumptions C03_enc_store.
 Print Assumptions C03_enc_load_imm.
 Print Assumptions C03_alu_arms.
 Print Assumptions C03_jump_conditions.
+Print Assumptions C03_memory_accesses_regs.
+Print Assumptions C03_memory_accesses_packet.
 Print Assumptions C03_jump_targets.
 Print Assumptions C03_call_targets.
